@@ -447,7 +447,15 @@ class P:
             self.eat("(")
             if self.at(")"):
                 self.eat(")"); return ("tuple0",)
-            e = self.expr(); self.eat(")"); return ("paren", e)
+            e = self.expr()
+            if self.at(","):
+                es = [e]
+                while self.at(","):
+                    self.eat(",")
+                    if self.at(")"): break
+                    es.append(self.expr())
+                self.eat(")"); return ("array", es)       # a tuple: matched by tuple patterns the way arrays are
+            self.eat(")"); return ("paren", e)
         if v == "[":
             self.eat("["); es = []
             while not self.at("]"):
@@ -554,6 +562,8 @@ class Emitter:
         self.depth = 0
         self.inputs = set()
         self.reads_as_inputs = False
+        self.ext_fields = {}          # field of self holding an object of a generic type (an inner getter / settable): field -> payload kind
+        self.default_read_kind = None # the payload kind of an un-annotated read of the device's own terminal (wrappers: TerminalData)
         self.kinds = {}               # local variable -> "State" / "Command": which Terminal impl a get / set on it means
         self.expected_kind = None
         self.dispatch = None          # e.g. "State": which of several impls of one trait for the same type is meant
@@ -592,6 +602,9 @@ class Emitter:
         if isinstance(e, tuple):
             if e and e[0] == "path" and len(e[1]) == 1 and e[1][0] in self.kinds:
                 return self.kinds[e[1][0]]
+            if e and e[0] == "mcall" and e[2] == "get" and not e[3] and e[1][0] == "field" and e[1][1] == ("path", ["self"]) \
+                    and e[1][2] in self.ext_fields:
+                return self.ext_fields[e[1][2]]
             for y in e:
                 r = self.kind_of(y)
                 if r: return r
@@ -608,6 +621,15 @@ class Emitter:
             if isinstance(y, list):
                 for z in y: self.bind_kinds(z, kind)
             elif isinstance(y, tuple): self.bind_kinds(y, kind)
+
+    def has_self_get(self, e):
+        if isinstance(e, tuple):
+            if e and e[0] == "mcall" and e[2] == "get" and not e[3] and e[1] == ("path", ["self"]):
+                return True
+            return any(self.has_self_get(y) for y in e)
+        if isinstance(e, list):
+            return any(self.has_self_get(y) for y in e)
+        return False
 
     def is_terminal(self, x):
         if x[0] == "field" and x[1] == ("path", ["self"]):
@@ -894,6 +916,11 @@ class Emitter:
                     return "(ELit (VT 0))"
                 if path == ["Quantity", "from"] and len(args) == 1:
                     return "(EQFrom %s)" % self.expr(args[0])
+                if path == ["Datum", "new"] and len(args) == 2 and args[1][0] == "struct":
+                    # a datum whose payload is a struct of the crate (TerminalData): a record with the fields `time`, `value`
+                    t1, t2 = self.fresh("f"), self.fresh("f")
+                    return "(ELet (PVar %s) %s (ELet (PVar %s) %s (ERec [(\"time\", EVar %s); (\"value\", EVar %s)])))" % (
+                        qs(t1), self.expr(args[0]), qs(t2), self.expr(args[1]), qs(t1), qs(t2))
                 if path == ["Command", "new"] and len(args) == 2 and args[1][0] == "mcall" and args[1][2] == "into" and not args[1][3]:
                     # Command::new(kind, value: f32): the `.into()` of the second argument is f32::from(Quantity)
                     return "(EOp 31 [%s; (EOp 23 [%s])])" % (self.expr(args[0]), self.expr(args[1][1]))
@@ -904,6 +931,11 @@ class Emitter:
             recv, name, args = e[1], e[2], e[3]
             if name == "get" and not args and recv[0] == "mcall" and recv[2] == "borrow" and self.is_terminal(recv[1]):
                 # a terminal of the device itself: its Getter<State> / Getter<Command> impl, selected by the annotated type
+                if not self.expected_kind and self.default_read_kind:
+                    x = recv[1]
+                    nm = "get:%s:%s" % (x[2] if x[0] == "field" else x[1][0], self.default_read_kind)
+                    self.inputs.add(nm[4:])
+                    return "(EVar %s)" % qs(nm)
                 if not self.expected_kind: raise ParseError("read of a terminal without a type annotation")
                 if self.reads_as_inputs:
                     # device logic and terminal logic are proved separately: what the terminal reads here is an input
@@ -918,6 +950,16 @@ class Emitter:
                              for f in lst if f["trait"] == "Getter" and self.dispatch in f.get("targs", [])]
                     if len(cands) != 1: raise ParseError("Terminal::get for %s: %d candidates" % (self.dispatch, len(cands)))
                     return self.inline_pure(recv[1], cands[0], [])
+                finally:
+                    self.dispatch = old
+            if name == "get" and not args and recv == ("path", ["self"]) and self.self_type == "Terminal" and self.expected_kind:
+                # inside Terminal: one of its own Getter impls, selected as above
+                old = self.dispatch; self.dispatch = self.expected_kind
+                try:
+                    cands = [(kk, f) for (kk, fname), lst in self.fns.items() if kk == "Terminal" and fname == "get"
+                             for f in lst if f["trait"] == "Getter" and self.dispatch in f.get("targs", [])]
+                    if len(cands) != 1: raise ParseError("Terminal::get for %s: %d candidates" % (self.dispatch, len(cands)))
+                    return self.inline_pure(recv, cands[0], [])
                 finally:
                     self.dispatch = old
             if name == "set" and len(args) == 1 and recv[0] == "mcall" and recv[2] == "borrow_mut" and self.is_terminal(recv[1]):
@@ -962,6 +1004,18 @@ class Emitter:
                 # a History consulted at a time: an external function of the time
                 self.inputs.add(recv[2])
                 return "(ECallFn (EVar %s) %s)" % (qs("get:" + recv[2]), self.expr(args[0]))
+            if recv[0] == "field" and recv[1] == ("path", ["self"]) and recv[2] in self.ext_fields:
+                # a method of an object of a generic type (the wrapped getter / settable): an external call.  Its arguments are
+                # appended to the object's call log (fn, args, prev), its answer is the input `ans:<field>.<fn>`
+                f = recv[2]
+                tmps = [self.fresh("x") for _ in args]
+                self.inputs.add("ans:%s.%s" % (f, name))
+                log = "(EField (EField (EVar \"self\") %s) \"log\")" % qs(f)
+                inner = "(ESeq (EAssign (LField (LField (LVar \"self\") %s) \"log\") (ERec [(\"args\", EArr %s); (\"fn\", EVariant %s); (\"prev\", %s)])) (EVar %s))" % (
+                    qs(f), self.lst(["(EVar %s)" % qs(t) for t in tmps]), qs(name), log, qs("ans:%s.%s" % (f, name)))
+                for a, t in reversed(list(zip(args, tmps))):
+                    inner = "(ELet (PVar %s) %s %s)" % (qs(t), self.expr(a), inner)
+                return inner
             # calls of the crate's own functions: inline the translated body (a RefCell borrow is transparent)
             while recv[0] == "mcall" and recv[2] in ("borrow", "borrow_mut") and not recv[3]:
                 recv = recv[1]
@@ -1037,6 +1091,12 @@ class Emitter:
         if s[0] == "let":
             tyids = s[3] if len(s) > 3 else []
             ann = "State" if "State" in tyids else ("Command" if "Command" in tyids else None)
+            if ann is None and self.self_type == "Terminal" and s[1][0] == "pvar" and s[1][1] in ("command", "state") \
+                    and self.has_self_get(s[2]):
+                # `let command = self.get()...` inside Terminal: rustc infers the impl from the use of the variable (it ends up in
+                # the field of the same name, whose type is fixed); the translator takes it from the variable's name - a wrong
+                # guess cannot make a theorem true, it makes the translated body differ from the model
+                ann = s[1][1].capitalize()
             old = self.expected_kind
             self.expected_kind = ann
             rhs = self.expr(s[2])
